@@ -86,6 +86,30 @@ func cmdDump(args []string) {
 	for _, p := range L.pkgs {
 		for _, n := range args[1:] {
 			if f := L.findFunc(p.PkgPath, n); f != nil {
+				if os.Getenv("GOVC_LOOPS") != "" {
+					c := newFnCtx(L, newUniverse(L), f, nil, nil)
+					c.analyzeLoops()
+					for _, li := range c.loopOrd {
+						pos := ""
+						for _, ins := range li.header.Instrs {
+							if ins.Pos().IsValid() {
+								pos = L.prog.Fset.Position(ins.Pos()).String()
+								break
+							}
+						}
+						if pos == "" {
+							for b := range li.blocks {
+								for _, ins := range b.Instrs {
+									if ins.Pos().IsValid() && pos == "" {
+										pos = L.prog.Fset.Position(ins.Pos()).String()
+									}
+								}
+							}
+						}
+						fmt.Printf("loop %d header b%d (%s) rangeindex=%v near %s\n", li.ordinal, li.header.Index, li.header.Comment, li.rangeIx != nil, pos)
+					}
+					continue
+				}
 				f.WriteTo(os.Stdout)
 				for _, af := range f.AnonFuncs {
 					af.WriteTo(os.Stdout)
